@@ -80,6 +80,11 @@ type Run struct {
 	Size int    `json:"size"`
 	Over []Over `json:"over,omitempty"`
 	How  int    `json:"how"`
+	// Rise lists glyph positions (taken modulo the length of the laid-out
+	// sequence) from which on the text rise toggles between 0 and 3: the
+	// builder then has to split the run into several TJ/Tj operators with Ts
+	// operators between them.
+	Rise []int `json:"rise,omitempty"`
 }
 
 // Step is one entry of the interleaving: lay out a run, call Encode for all
@@ -115,6 +120,7 @@ type observed struct {
 	nonASCII    bool
 	ligature    bool
 	override    bool
+	riseChange  bool
 	notdef      bool
 	manyCodes   bool
 	exact256    bool
@@ -274,6 +280,11 @@ func validate(c *Case) error {
 			!utf8.ValidString(r.Text) || r.Text == "" || utf8.RuneCountInString(r.Text) > maxFillLen {
 			return fmt.Errorf("invalid case: run %+v", r)
 		}
+		for _, pos := range r.Rise {
+			if pos < 0 {
+				return fmt.Errorf("invalid case: rise position %d", pos)
+			}
+		}
 		for _, o := range r.Over {
 			if !utf8.ValidString(o.Text) || o.Pos < 0 { // the empty text is allowed
 				return fmt.Errorf("invalid case: override %+v", o)
@@ -338,6 +349,16 @@ func checkCase(c *Case) error {
 				if g.Text != ov.Text {
 					g.Text = ov.Text
 					o.override = true
+				}
+			}
+		}
+		if n := len(seq.Seq); n > 0 && run.How == howGlyphs {
+			for _, pos := range run.Rise {
+				for j := pos % n; j < n; j++ {
+					seq.Seq[j].Rise = 3 - seq.Seq[j].Rise
+				}
+				if pos%n > 0 {
+					o.riseChange = true
 				}
 			}
 		}
